@@ -79,7 +79,8 @@ static void run_drift(const Case& c) {
     auto in = mkps(n, nb, c.data.data(), e[0], e[1], e[2], e[3], e[4], e[5]);
     auto out = mkps(n, nb, nullptr, e[0], e[1], e[2], e[3], e[4], e[5]);
     std::vector<meshaxis_t> slip{e[6], e[7], e[8]};
-    ProbeDrift dm(in, out, slip, e[9], static_cast<SourceMap::InterpolationType>(it), false, nullptr);
+    ProbeDrift dm(in, out, slip, e[9], static_cast<SourceMap::InterpolationType>(it),
+                  c.head.size() > 5 && c.head[5] == "1", nullptr);   // optional 6th token: interpolation-clamp switch
     std::cout << "case " << c.id << '\n';
     std::cout << "aux2";
     for (uint32_t y = 0; y < n; y++) {
